@@ -3,6 +3,7 @@ package dblookupext
 import (
 	"bytes"
 	"fmt"
+	"runtime"
 	"strings"
 	"testing"
 
@@ -54,6 +55,8 @@ type verifC46Model struct {
 	live        []*verifC46Record            // the current chain: records not dropped, ascending nonce
 	latestByMB  map[string]*verifC46Record   // miniblock hash -> latest call's record
 	firstAt     map[string]int               // miniblock hash -> clock of its first record
+	lastAt      map[string]int               // miniblock hash -> clock of its latest record
+	unasserted  map[string]bool              // (miniblock, side) seen without notarization after a re-record (not asserted)
 	headersOfMB map[string]map[string]bool   // miniblock hash -> distinct header hashes it was recorded under
 	earlierOfMB map[string][]*verifC46Record // all records of the miniblock in call order
 	latestByTx  map[string]*verifC46MB       // tx hash -> miniblock of the latest record containing the tx
@@ -155,6 +158,7 @@ func (m *verifC46Model) applyRecord(r *verifC46Record) {
 	for _, mb := range r.mbs {
 		k := string(mb.hash)
 		m.latestByMB[k] = r
+		m.lastAt[k] = m.clock
 		if _, ok := m.firstAt[k]; !ok {
 			m.firstAt[k] = m.clock
 		}
@@ -184,12 +188,126 @@ func verifC46Side(mb *block.MiniBlock, container uint32) string {
 	}
 }
 
+// verifC46HookStorer lets the harness own the schedule: after every write it calls the hook, which may let
+// a concurrent OnNotarizedBlocks run at exactly that point of a RecordBlock call.
+type verifC46HookStorer struct {
+	*genericMocks.StorerMock
+	sched *verifC46Sched
+}
+
+func (s *verifC46HookStorer) Put(key, value []byte) error {
+	s.sched.beforeWrite()
+	err := s.StorerMock.Put(key, value)
+	s.sched.afterWrite()
+	return err
+}
+
+func (s *verifC46HookStorer) PutInEpoch(key, value []byte, epoch uint32) error {
+	s.sched.beforeWrite()
+	err := s.StorerMock.PutInEpoch(key, value, epoch)
+	s.sched.afterWrite()
+	return err
+}
+
+// verifC46Sched: during one RecordBlock call, after the fireAt-th storage write made by the recording goroutine,
+// a notification is delivered on another goroutine (as in production, where OnNotarizedBlocks has its own
+// goroutine). If the recording goroutine does not hold the notifications mutex at that point the notification
+// runs to completion before the record continues; if it does (the write happens inside the critical section)
+// the notification is started, necessarily blocks on the mutex, and is given its turn (joined) right before the
+// recorder's next write outside the critical section, or after RecordBlock returned. No timing is involved.
+type verifC46Sched struct {
+	hr          *historyRepository
+	recorderGID uint64 // goroutine id of the running RecordBlock call, 0 = no call in progress
+	count       int
+	fireAt      int
+	notif       *verifC46Notification
+	fired       bool
+	firedInside bool // started while the recorder held the mutex
+	done        chan struct{}
+}
+
+func verifC46GoroutineID() uint64 {
+	var buf [64]byte
+	n := runtime.Stack(buf[:], false)
+	// "goroutine 123 [running]:..."
+	var id uint64
+	for _, ch := range buf[len("goroutine "):n] {
+		if ch < '0' || ch > '9' {
+			break
+		}
+		id = id*10 + uint64(ch-'0')
+	}
+	return id
+}
+
+func (s *verifC46Sched) recorderHoldsMutex() bool {
+	if s.hr.consumePendingNotificationsMutex.TryLock() {
+		s.hr.consumePendingNotificationsMutex.Unlock()
+		return false
+	}
+	return true
+}
+
+// beforeWrite: a notification that was started inside the critical section gets its turn as soon as the recorder
+// has left it, i.e. it completes before the recorder's next storage write (instead of racing with it)
+func (s *verifC46Sched) beforeWrite() {
+	if s == nil || s.recorderGID == 0 || s.done == nil || verifC46GoroutineID() != s.recorderGID {
+		return
+	}
+	// The mutex can be held by the recorder itself (this write is inside the critical section: the notification
+	// cannot finish, go on) or by the notification that is being consumed right now (it will finish: wait). The
+	// two cases are told apart by a bounded wait; a wrong guess only changes which schedule is explored.
+	for i := 0; i < 2000; i++ {
+		select {
+		case <-s.done:
+			s.done = nil
+			return
+		default:
+		}
+		if !s.recorderHoldsMutex() {
+			<-s.done
+			s.done = nil
+			return
+		}
+		runtime.Gosched()
+	}
+}
+
+func (s *verifC46Sched) afterWrite() {
+	if s == nil || s.recorderGID == 0 || verifC46GoroutineID() != s.recorderGID {
+		return // a write of the notification goroutine, or no scheduled call in progress
+	}
+	s.count++
+	if s.notif != nil && !s.fired && s.count == s.fireAt {
+		s.fired = true
+		done := make(chan struct{})
+		n, hr := s.notif, s.hr
+		inside := s.recorderHoldsMutex()
+		go func() {
+			hr.OnNotarizedBlocks(core.MetachainShardId, []data.HeaderHandler{n.meta}, [][]byte{n.hash})
+			close(done)
+		}()
+		if inside {
+			s.firedInside = true
+			s.done = done
+		} else {
+			<-done
+		}
+	}
+}
+
 func verifC46NewRepo(rt interface{ Fatalf(string, ...interface{}) }, self uint32) *historyRepository {
+	hr, _ := verifC46NewRepoWithSched(rt, self)
+	return hr
+}
+
+func verifC46NewRepoWithSched(rt interface{ Fatalf(string, ...interface{}) }, self uint32) (*historyRepository, *verifC46Sched) {
+	sched := &verifC46Sched{}
 	args := HistoryRepositoryArguments{
 		SelfShardID:                 self,
-		MiniblocksMetadataStorer:    genericMocks.NewStorerMock("MiniblocksMetadata", 0),
-		MiniblockHashByTxHashStorer: genericMocks.NewStorerMock("MiniblockHashByTxHash", 0), // static storer: epoch never changes
-		EpochByHashStorer:           genericMocks.NewStorerMock("EpochByHash", 0),           // static storer
+		MiniblocksMetadataStorer:    &verifC46HookStorer{StorerMock: genericMocks.NewStorerMock("MiniblocksMetadata", 0), sched: sched},
+		MiniblockHashByTxHashStorer: &verifC46HookStorer{StorerMock: genericMocks.NewStorerMock("MiniblockHashByTxHash", 0), sched: sched}, // static storer: epoch never changes
+		EpochByHashStorer:           &verifC46HookStorer{StorerMock: genericMocks.NewStorerMock("EpochByHash", 0), sched: sched},           // static storer
 		EventsHashesByTxHashStorer:  genericMocks.NewStorerMock("EventsHashesByTxHash", 0),
 		Marshalizer:                 &marshal.GogoProtoMarshalizer{},
 		Hasher:                      blake2b.NewBlake2b(),
@@ -198,8 +316,18 @@ func verifC46NewRepo(rt interface{ Fatalf(string, ...interface{}) }, self uint32
 	if err != nil {
 		rt.Fatalf("fixture: %v", err)
 	}
-	return hr
+	sched.hr = hr
+	return hr, sched
 }
+
+// verifC46ClaimRerecorded: whether missing notarization data is a violation also for a miniblock that was recorded
+// under several block hashes (fork, then the canonical block). Read strictly, the statement wants it ("once the
+// corresponding notarizing meta block has been seen, in whichever order"); the repository at /repo HEAD loses the
+// data whenever the notification was consumed against the earlier record (sequentially: notification, fork record,
+// any notification call, canonical record), see notes/reports/C46.md round 3 and
+// notes/fixes/C46-carry-notarization-over-on-rerecord.patch. Until that is decided the class is only counted
+// (classes "unasserted:..."); flip to true together with the fix.
+const verifC46ClaimRerecorded = false
 
 func verifC46SameNotarization(nonce uint64, hash []byte, n *verifC46Notif) bool {
 	return nonce == n.metaNonce && bytes.Equal(hash, n.metaHash)
@@ -270,6 +398,14 @@ func (m *verifC46Model) check(c *kit.Case, hr *historyRepository) {
 			if !isZero && !matches {
 				c.Violation("C46:notarization-invented", "%s: notarized-at-%s reported as meta nonce %d hash %q, no such notification was seen\nhistory:\n%s", m.mbName(mbp), side, gotNonce, gotHash, m.history())
 			}
+			// re-recorded miniblock (several block hashes): see verifC46ClaimRerecorded
+			if !single && len(relevant) > 0 && m.lastCallAt > m.lastAt[mbKey] && isZero {
+				if verifC46ClaimRerecorded {
+					c.Violation("C46:notarization-lost-on-rerecord-"+side, "%s (recorded under %d blocks, last at step %d): notarized-at-%s is empty although a notification was seen (step %d) and notifications were processed at step %d\nhistory:\n%s",
+						m.mbName(mbp), len(m.headersOfMB[mbKey]), m.lastAt[mbKey], side, relevant[0].at, m.lastCallAt, m.history())
+				}
+				m.unasserted[mbKey+side] = true
+			}
 			// due: recorded under one block only, a notification exists, and a notification call completed after the record
 			if single && len(relevant) > 0 && m.lastCallAt > m.firstAt[mbKey] && isZero {
 				c.Violation("C46:notarization-missing-"+side, "%s (recorded in one block at step %d): notarized-at-%s is empty although a notification was seen (step %d) and notifications were processed at step %d\nhistory:\n%s",
@@ -293,6 +429,7 @@ type verifC46Driver struct {
 	rt                   *rapid.T
 	sameEpochRerecord    bool
 	notifiedBeforeRecord bool
+	sched                *verifC46Sched
 }
 
 type verifC46Notification struct {
@@ -305,6 +442,8 @@ func verifC46NewDriver(rt *rapid.T, c *kit.Case) *verifC46Driver {
 		self:        rapid.SampledFrom([]uint32{0, 1, core.MetachainShardId}).Draw(rt, "self"),
 		latestByMB:  map[string]*verifC46Record{},
 		firstAt:     map[string]int{},
+		lastAt:      map[string]int{},
+		unasserted:  map[string]bool{},
 		headersOfMB: map[string]map[string]bool{},
 		earlierOfMB: map[string][]*verifC46Record{},
 		latestByTx:  map[string]*verifC46MB{},
@@ -316,9 +455,9 @@ func verifC46NewDriver(rt *rapid.T, c *kit.Case) *verifC46Driver {
 		metaNonce:   uint64(rapid.IntRange(1, 50).Draw(rt, "startMetaNonce")),
 		lastCallAt:  -1,
 	}
-	hr := verifC46NewRepo(rt, m.self)
+	hr, sched := verifC46NewRepoWithSched(rt, m.self)
 	verifC46GenPool(rt, m, hr)
-	return &verifC46Driver{m: m, hr: hr, c: c, rt: rt}
+	return &verifC46Driver{m: m, hr: hr, c: c, rt: rt, sched: sched}
 }
 
 // genRecord: a new block on top of the chain, or competing with (replacing) its last 1-2 blocks
@@ -493,8 +632,39 @@ func (d *verifC46Driver) execRecord(r *verifC46Record) {
 	}
 }
 
+// execRecordInterleaved runs RecordBlock and delivers the notification after its k-th storage write (see
+// verifC46Sched). If the call makes fewer than k writes the notification is delivered right after it.
+func (d *verifC46Driver) execRecordInterleaved(r *verifC46Record, n *verifC46Notification, k int) {
+	s := d.sched
+	s.count, s.fireAt, s.notif, s.fired, s.firedInside, s.done = 0, k, n, false, false, nil
+	s.recorderGID = verifC46GoroutineID()
+	d.execRecord(r)
+	s.recorderGID = 0
+	if s.done != nil {
+		<-s.done
+		s.done = nil
+	}
+	switch {
+	case !s.fired:
+		d.execNotify(n)
+		d.m.lastCallAt = d.m.clock
+		d.c.Class("interleave:delivered-after-the-record")
+	case s.firedInside:
+		d.c.Class("interleave:started-inside-the-critical-section")
+	default:
+		d.c.Class("interleave:between-two-writes")
+	}
+	d.m.logf("   (the notification above was delivered after storage write %d of %d of the RecordBlock above; fired=%v insideCriticalSection=%v)", k, s.count, s.fired, s.firedInside)
+	s.notif = nil
+}
+
 // genNotify builds a meta block notification and notes it in the model
 func (d *verifC46Driver) genNotify(t *rapid.T, empty bool) *verifC46Notification {
+	return d.genNotifyAbout(t, empty, nil)
+}
+
+// genNotifyAbout: when prefer is not empty the first notified miniblock is one of them
+func (d *verifC46Driver) genNotifyAbout(t *rapid.T, empty bool, prefer []*verifC46MB) *verifC46Notification {
 	m := d.m
 	m.clock++
 	m.metaNonce++
@@ -506,6 +676,9 @@ func (d *verifC46Driver) genNotify(t *rapid.T, empty bool) *verifC46Notification
 		k := rapid.IntRange(1, 3).Draw(t, "numNotified")
 		for i := 0; i < k; i++ {
 			mb := m.pool[rapid.IntRange(0, len(m.pool)-1).Draw(t, "notifMB")]
+			if i == 0 && len(prefer) > 0 {
+				mb = prefer[rapid.IntRange(0, len(prefer)-1).Draw(t, "notifOfThisBlock")]
+			}
 			container := mb.mb.SenderShardID
 			if rapid.Bool().Draw(t, "atDestination") {
 				container = mb.mb.ReceiverShardID
@@ -549,6 +722,9 @@ func (d *verifC46Driver) execNotify(n *verifC46Notification) {
 }
 
 func (d *verifC46Driver) finish() {
+	if len(d.m.unasserted) > 0 {
+		d.c.Class("unasserted:rerecorded-miniblock-without-notarization-data")
+	}
 	if d.sameEpochRerecord {
 		d.c.Class("case:miniblock-in-two-blocks-of-one-epoch")
 	}
@@ -560,7 +736,7 @@ func (d *verifC46Driver) finish() {
 
 func TestVerifC46_LookupReportsLatestBlock(t *testing.T) {
 	kit.Run(t, "C46", kit.Budget{Quick: 2000, Thorough: 20000, Steps: 25},
-		"self shard 0/1/meta; pool of 5-10 miniblocks (intra, from me, to me, to/from meta; 1-3 tx hashes out of 6/12/24, so a tx may sit in two miniblocks); history over a forking chain: new block (on top, or competing = replacing the last 1-2 blocks, body biased to the miniblocks of the dropped blocks; a chain holds a miniblock/tx once), the same block again (replay of the last block, or switch back to a dropped block whose parent is still in the chain), meta-block notification (miniblock headers under source/destination shard, also for not-yet-recorded miniblocks, plus unrelated noise), empty notification, epoch increment; invariant after every step via GetMiniblockMetadataByTxHash/GetEpochByHash against the model; non-trivial = a miniblock recorded under two different blocks of one epoch, or notified before it was recorded; distinct by history text",
+		"self shard 0/1/meta; pool of 5-10 miniblocks (intra, from me, to me, to/from meta; 1-3 tx hashes out of 6/12/24, so a tx may sit in two miniblocks); history over a forking chain: new block (on top, or competing = replacing the last 1-2 blocks, body biased to the miniblocks of the dropped blocks; a chain holds a miniblock/tx once), the same block again (replay of the last block, or switch back to a dropped block whose parent is still in the chain), meta-block notification (miniblock headers under source/destination shard, also for not-yet-recorded miniblocks, plus unrelated noise), a record with a notification about one of its miniblocks delivered on another goroutine after a drawn storage write of that RecordBlock call (harness-owned schedule through hook storers), empty notification, epoch increment; invariant after every step via GetMiniblockMetadataByTxHash/GetEpochByHash against the model; non-trivial = a miniblock recorded under two different blocks of one epoch, or notified before it was recorded; distinct by history text",
 		func(rt *rapid.T, c *kit.Case) {
 			d := verifC46NewDriver(rt, c)
 			m := d.m
@@ -581,6 +757,21 @@ func TestVerifC46_LookupReportsLatestBlock(t *testing.T) {
 				"notify": func(t *rapid.T) {
 					d.execNotify(d.genNotify(t, false))
 					m.lastCallAt = m.clock
+				},
+				"recordWithNotificationInside": func(t *rapid.T) {
+					// schedule-owning step: a notification about a miniblock of this very block is processed by
+					// another goroutine after a drawn storage write of the RecordBlock call
+					var r *verifC46Record
+					var what string
+					if len(m.live) > 0 && rapid.IntRange(0, 3).Draw(t, "again") == 0 {
+						r, what = d.genRecordAgain(t)
+					} else {
+						r, what = d.genRecord(t)
+					}
+					d.noteRecord(r, what+" [interleaved]")
+					n := d.genNotifyAbout(t, false, r.mbs)
+					k := rapid.IntRange(1, 2+4*len(r.mbs)).Draw(t, "afterWrite")
+					d.execRecordInterleaved(r, n, k)
 				},
 				"flush": func(t *rapid.T) {
 					d.execNotify(d.genNotify(t, true))
